@@ -1,0 +1,40 @@
+//go:build verif
+
+package netmap
+
+import (
+	nmClient "github.com/nspcc-dev/neofs-node/pkg/morph/client/netmap"
+	"github.com/nspcc-dev/neofs-node/pkg/morph/event"
+	netmapEvent "github.com/nspcc-dev/neofs-node/pkg/morph/event/netmap"
+	"github.com/nspcc-dev/neofs-sdk-go/netmap"
+	"go.uber.org/zap"
+)
+
+// VerifNewProcessor builds a Processor without the start-up network map fetch of New and with
+// no-op alphabet sync / notary deposit handlers (verification harness only).
+func VerifNewProcessor(nm *nmClient.Client, timer EpochTimerReseter, epochState EpochState, alphabet AlphabetState, v NodeValidator) *Processor {
+	p := &Processor{
+		log:                 zap.NewNop(),
+		epochTimer:          timer,
+		epochState:          epochState,
+		alphabetState:       alphabet,
+		netmapClient:        nm,
+		handleAlphabetSync:  func(event.Event) {},
+		handleNotaryDeposit: func(event.Event) {},
+		nodeValidator:       v,
+	}
+	p.curMap.Store(new(netmap.NetMap))
+	return p
+}
+
+// VerifProcessAddNode runs processAddNode synchronously.
+func (np *Processor) VerifProcessAddNode(ev netmapEvent.AddNode) { np.processAddNode(ev) }
+
+// VerifProcessUpdatePeer runs processUpdatePeer synchronously.
+func (np *Processor) VerifProcessUpdatePeer(ev netmapEvent.UpdatePeer) { np.processUpdatePeer(ev) }
+
+// VerifProcessNewEpochTick runs processNewEpochTick synchronously.
+func (np *Processor) VerifProcessNewEpochTick() { np.processNewEpochTick() }
+
+// VerifProcessNewEpoch runs processNewEpoch synchronously.
+func (np *Processor) VerifProcessNewEpoch(ev netmapEvent.NewEpoch) { np.processNewEpoch(ev) }
